@@ -606,6 +606,34 @@ func countGenerator(r *common.Run) {
 			}
 		}
 	}
+	// insertion orders: three and four rules with pairwise distinct periods, added in EVERY order (a rule
+	// set is a set: an AddRule that inserts in front of one, two or three rules already present must
+	// leave the same generator as one that appends), parameters from a thinner menu
+	for _, periods := range [][]int{{2, 4, 7}, {2, 4, 7, 11}} {
+		k := len(periods)
+		common.Perms(k, func(order []int) {
+			choice := make([]int, k)
+			var rec func(i int)
+			rec = func(i int) {
+				if i == k {
+					set := make([]ruleT, k)
+					for pos, which := range order {
+						c := choice[which]
+						set[pos] = ruleT{periods[which], 1 + 2*(c&1), 1 + which%2, 1 + 2*((c>>1)&1)} // interval 1 / 2 alternating by rule
+					}
+					run(set)
+					ev++
+					nt++
+					return
+				}
+				for c := 0; c < 4; c++ {
+					choice[i] = c
+					rec(i + 1)
+				}
+			}
+			rec(0)
+		})
+	}
 	r.Eval(ev)
 	r.Nontrivial(nt)
 	r.SampleL("CountGenerator", map[string]any{"rules": "[{3 1 2 3} {6 3 1 2}]", "id": "zz", "diffs": "-1..9"})
